@@ -68,6 +68,99 @@ theorem Lt31.of_run {s s' : Sys} {ops : List Op} {rs : List Res} (e : s.run ops 
     Lt31 s :=
   ⟨Nat.lt_of_le_of_lt (run_sub e .A).length_le h.1, Nat.lt_of_le_of_lt (run_sub e .B).length_le h.2⟩
 
+
+/-! ## H31 from the op list: the bytes written bound the submitted logs -/
+
+/-- total size of the `write x` ops of a list -/
+def writeBytes (x : SideId) : List Op → Nat
+  | [] => 0
+  | .write y b :: ops => (if y = x then b.length else 0) + writeBytes x ops
+  | _ :: ops => writeBytes x ops
+
+theorem setSide_eq (s : Sys) (x : SideId) (v : Side) (hv : v.submitted = (s.side x).submitted) (y : SideId) :
+    ((s.setSide x v).side y).submitted = (s.side y).submitted := by
+  cases x <;> cases y <;> first | exact hv | rfl
+
+theorem arrive_sub_eq {s s' : Sys} {x : SideId} {g : Segment} {r : Res} (e : s.arrive x g = .ok (s', r))
+    (y : SideId) : (s'.side y).submitted = (s.side y).submitted := by
+  unfold Sys.arrive at e
+  dsimp only at e
+  repeat' split at e
+  all_goals cases e
+  all_goals first
+    | rfl
+    | (refine setSide_eq _ _ _ ?_ _; rfl)
+    | (rw [side_record])
+
+/-- only `write` changes a submitted log -/
+theorem step_sub_eq {s s' : Sys} {op : Op} {r : Res} (hnw : ∀ x b, op ≠ .write x b)
+    (e : s.step op = .ok (s', r)) (y : SideId) : (s'.side y).submitted = (s.side y).submitted := by
+  cases op
+  case write x b => exact absurd rfl (hnw x b)
+  case deliver x i =>
+    simp only [Sys.step, Op.side] at e
+    split at e
+    · cases e; rfl
+    · exact arrive_sub_eq e y
+  case inject x g =>
+    simp only [Sys.step, Op.side] at e
+    exact arrive_sub_eq e y
+  all_goals
+    simp only [Sys.step, Op.side] at e
+    repeat' split at e
+    all_goals cases e
+    all_goals first
+      | rfl
+      | (refine setSide_eq _ _ _ ?_ _; rfl)
+      | (rw [side_record]; refine setSide_eq _ _ _ ?_ _; rfl)
+
+theorem step_len {s s' : Sys} {op : Op} {r : Res} (e : s.step op = .ok (s', r)) (y : SideId) :
+    (s'.side y).submitted.length ≤ (s.side y).submitted.length + writeBytes y [op] := by
+  by_cases hw : ∃ x b, op = .write x b
+  · obtain ⟨x, b, rfl⟩ := hw
+    simp only [Sys.step, Op.side] at e
+    split at e
+    · cases e; exact Nat.le_add_right _ _
+    · rename_i tcb _
+      cases e
+      have hb : (if sendAccepts tcb.state = true then b else []).length ≤ b.length := by
+        split <;> simp
+      cases x <;> cases y <;>
+        simp only [Sys.setSide, Sys.side, writeBytes, List.length_append, if_true, if_false, reduceCtorEq] <;> omega
+  · have hnw : ∀ x b, op ≠ .write x b := fun x b h => hw ⟨x, b, h⟩
+    rw [step_sub_eq hnw e y]
+    exact Nat.le_add_right _ _
+
+theorem writeBytes_cons (y : SideId) (op : Op) (ops : List Op) :
+    writeBytes y (op :: ops) = writeBytes y [op] + writeBytes y ops := by
+  cases op <;> simp [writeBytes]
+
+theorem run_len {s s' : Sys} {ops : List Op} {rs : List Res} (e : s.run ops = .ok (s', rs)) (y : SideId) :
+    (s'.side y).submitted.length ≤ (s.side y).submitted.length + writeBytes y ops := by
+  induction ops generalizing s rs with
+  | nil => unfold Sys.run at e; cases e; exact Nat.le_add_right _ _
+  | cons op ops ih =>
+    unfold Sys.run at e
+    split at e
+    · cases e
+    · rename_i s1 r1 h1
+      split at e
+      · cases e
+      · rename_i s2 rs2 h2
+        cases e
+        have a := step_len h1 y
+        have b := ih h2
+        rw [writeBytes_cons]
+        omega
+
+/-- fewer than 2^31 bytes written per side ⇒ H31 for the state any run from the empty system ends in -/
+theorem Lt31.of_writes {s' : Sys} {ops : List Op} {rs : List Res} (e : Sys.run {} ops = .ok (s', rs))
+    (ha : writeBytes .A ops < 2147483648) (hb : writeBytes .B ops < 2147483648) : Lt31 s' := by
+  have a := run_len e .A
+  have b := run_len e .B
+  simp only [Sys.side, List.length_nil, Nat.zero_add] at a b
+  exact ⟨by omega, by omega⟩
+
 /-! ## runs -/
 
 /-- every op of the run is an op of the C01 statement, in the state in which it is executed -/
